@@ -97,6 +97,7 @@ type gateway struct {
 	client   *gatewayfake.Clientset
 	ctl      *controllers.UpstreamClusterController
 	real     clusters.Manager
+	rec      *recordingManager
 	rdv      *rendezvous
 	stop     chan struct{}
 	started  int64
@@ -153,7 +154,8 @@ func startGateway() *gateway {
 	})
 	// the controller's own manager (clusters.NewManager()), behind the recording wrapper: reads go straight through
 	g.real = g.ctl.Manager
-	g.ctl.Manager = &recordingManager{Manager: g.real, before: g.rdv.arrive, after: func() {}}
+	g.rec = &recordingManager{Manager: g.real, before: g.rdv.arrive, after: func() {}}
+	g.ctl.Manager = g.rec
 	factory.Start(g.stop)
 	go func() {
 		// Run panics when it is stopped before the informer has synced (a case that ends at once)
@@ -178,10 +180,8 @@ func (g *gateway) shutdown() {
 	for _, ci := range g.ptrs {
 		seen[ci] = true
 	}
-	for _, k := range clusters.VerifC10Keys(g.real) {
-		if ci, ok := clusters.VerifC10Raw(g.real, k); ok {
-			seen[ci] = true
-		}
+	for _, e := range g.rec.keys() {
+		seen[e.ci] = true
 	}
 	for ci := range seen {
 		ci.Stop()
@@ -273,12 +273,9 @@ func (g *gateway) idx(ci *clusters.ClusterInfo) int {
 
 func (g *gateway) snapshot() State {
 	var st State
-	keys := clusters.VerifC10Keys(g.real)
-	sort.Strings(keys)
 	st.Keys = [][]interface{}{}
-	for _, k := range keys {
-		ci, _ := clusters.VerifC10Raw(g.real, k)
-		st.Keys = append(st.Keys, []interface{}{rig.Hex(k), g.idx(ci)})
+	for _, e := range g.rec.keys() {
+		st.Keys = append(st.Keys, []interface{}{rig.Hex(e.key), g.idx(e.ci)})
 	}
 	st.Infos = []Info{}
 	st.Stopped = []int{}
@@ -712,14 +709,18 @@ func runAuth(c *rig.Ctx, cs Case, count bool) (v verdict) {
 		where := fmt.Sprintf("gateway %s --client-ca-file, connection SNI %q, request Host %q, client certificate signed by CA %d",
 			map[bool]string{true: "WITH", false: "WITHOUT"}[cs.CP], rig.UnHex(r.SNI), rig.UnHex(r.Host), r.Cert)
 		if got != exp {
-			class := "c10.auth.outcome"
+			class, kind := "c10.auth.outcome", "judge"
 			switch {
 			case exp == "user":
 				class = "c10.auth.valid-cert-not-authenticated"
 			case got == "user":
 				class = "c10.auth.foreign-cert-accepted"
+			case got == "rejected" && exp == "anonymous":
+				// stricter than the model (a certificate nobody can verify is refused instead of ignored): not
+				// against the property, a tie difference
+				class, kind = "c10.auth.stricter", "diff"
 			}
-			return verdict{Kind: "judge", Class: class, Impl: map[string]interface{}{"outcome": got, "state": st}, Model: exp,
+			return verdict{Kind: kind, Class: class, Impl: map[string]interface{}{"outcome": got, "state": st}, Model: exp,
 				What: fmt.Sprintf("%s: served as %q, but the verify options of the cluster the host resolves to (control-plane CA otherwise) prescribe %q", where, got, exp)}
 		}
 		if tobs != nil && canonTLS(tobs) != canonTLS(want.TLS[i]) {
